@@ -425,3 +425,215 @@ def _replace_node(trees: List[ast.Module], old: ast.AST, new: ast.AST) -> None:
                         if x is old:
                             val[i] = new
                             return
+
+
+# --------------------------------------------------------------------------- @contextmanager generators
+def canon_context_managers(trees: List[ast.Module]) -> Dict[str, str]:
+    """`with cm(args) as x: BODY` for `@contextmanager def cm(..): PRE; yield V; POST` is `PRE; x = V; BODY; POST` - POST only when BODY
+    completes, exactly as the generator is resumed. With the yield inside `try: .. finally: F` / `except E: H`, BODY takes the yield's
+    place inside that try. A `return` in a handler of the generator ends it without re-raising: the exception is swallowed and execution
+    continues after the with statement - the expansion keeps that (the return is dropped where it is the handler's last statement;
+    other shapes are left alone)."""
+    cms: Dict[str, List[ast.FunctionDef]] = {}
+    for tree in trees:
+        for n in ast.walk(tree):
+            if isinstance(n, ast.FunctionDef) and any(((_ctx_dotted(d) or "").split(".")[-1] == "contextmanager") for d in n.decorator_list):
+                cms.setdefault(n.name, []).append(n)
+    cms = {k: v for k, v in cms.items() if len(v) == 1}
+    done: Dict[str, str] = {}
+    if not cms:
+        return done
+    serial = [0]
+
+    def shape(fn: ast.FunctionDef) -> Optional[Tuple[List[ast.stmt], Optional[ast.Try], ast.AST, List[ast.stmt]]]:
+        body = list(fn.body)
+        if body and isinstance(body[0], ast.Expr) and isinstance(body[0].value, ast.Constant) and isinstance(body[0].value.value, str):
+            body = body[1:]
+        ys = [n for n in _own_nodes(fn) if isinstance(n, (ast.Yield, ast.YieldFrom))]
+        if len(ys) != 1 or not isinstance(ys[0], ast.Yield):
+            return None
+        for i, st in enumerate(body):
+            if isinstance(st, ast.Expr) and st.value is ys[0]:
+                return body[:i], None, (ys[0].value or ast.Constant(value=None)), body[i + 1:]
+            if isinstance(st, ast.Try) and any(isinstance(b, ast.Expr) and b.value is ys[0] for b in st.body):
+                if any(any(n is ys[0] for n in ast.walk(x)) for h in st.handlers for x in h.body):
+                    return None
+                return body[:i], st, (ys[0].value or ast.Constant(value=None)), body[i + 1:]
+            if any(n is ys[0] for n in ast.walk(st)):
+                return None
+        return None
+
+    def expand(w: ast.With, fn: ast.FunctionDef) -> Optional[List[ast.stmt]]:
+        if len(w.items) != 1:
+            return None
+        call = w.items[0].context_expr
+        sh = shape(fn)
+        if sh is None or not isinstance(call, ast.Call):
+            return None
+        pre, tr, val, post = sh
+        a = fn.args
+        if a.vararg or a.kwarg or a.posonlyargs or a.kwonlyargs or call.keywords and any(k.arg is None for k in call.keywords):
+            return None
+        params = [p.arg for p in a.args]
+        actual: Dict[str, ast.AST] = {}
+        if params and params[0] in ("self", "cls") and isinstance(call.func, ast.Attribute):
+            actual[params[0]] = call.func.value
+            params = params[1:]
+        if len(call.args) > len(params) or any(isinstance(x, ast.Starred) for x in call.args):
+            return None
+        actual.update(dict(zip(params, call.args)))
+        for k in call.keywords:
+            if k.arg not in params or k.arg in actual:
+                return None
+            actual[k.arg] = k.value        # type: ignore[index]
+        defaults = dict(zip([p.arg for p in a.args][len(a.args) - len(a.defaults):], a.defaults))
+        for p in params:
+            if p not in actual:
+                if p not in defaults:
+                    return None
+                actual[p] = defaults[p]
+        serial[0] += 1
+        tag = "_cm%d_" % serial[0]
+        stored = {n.id for st in fn.body for n in ast.walk(st) if isinstance(n, ast.Name) and isinstance(n.ctx, ast.Store)}
+        ren: Dict[str, Any] = {}
+        binds: List[ast.stmt] = []
+        for p, v in actual.items():
+            if _simple_arg(v) and p not in stored:
+                ren[p] = v
+            else:
+                ren[p] = tag + p
+                binds.append(ast.Assign(targets=[ast.Name(id=tag + p, ctx=ast.Store())], value=v, lineno=w.lineno))
+        for nm in stored:
+            if nm not in ren:
+                ren[nm] = tag + nm
+        R = lambda node: _Rename(ren).visit(copy.deepcopy(node))      # noqa
+        out: List[ast.stmt] = binds + [R(st) for st in pre]
+        target = w.items[0].optional_vars
+        inner: List[ast.stmt] = []
+        if target is not None:
+            inner.append(ast.Assign(targets=[target], value=R(val), lineno=w.lineno))
+        else:
+            v2 = R(val)
+            if not isinstance(v2, (ast.Constant, ast.Name)):
+                inner.append(ast.Expr(value=v2))
+        inner += list(w.body)
+        if tr is None:
+            out += inner
+        else:
+            t2 = R(tr)
+            # the statements of the try body around the yield stay where they are; the yield statement is replaced by the with body
+            nb: List[ast.stmt] = []
+            for b in t2.body:
+                if isinstance(b, ast.Expr) and isinstance(b.value, ast.Yield):
+                    nb += inner
+                else:
+                    nb.append(b)
+            t2.body = nb
+            for h in t2.handlers:
+                rets = [n for n in ast.walk(h) if isinstance(n, ast.Return)]
+                if rets:
+                    if len(rets) == 1 and rets[0] is h.body[-1] and rets[0].value is None:
+                        h.body = h.body[:-1] or [ast.Pass()]       # swallowed: execution goes on after the with statement
+                    else:
+                        return None
+            if any(isinstance(n, ast.Return) for st in t2.finalbody + t2.orelse for n in ast.walk(st)):
+                return None
+            out.append(t2)
+        if any(isinstance(n, ast.Return) for st in pre + post for n in ast.walk(st)):
+            return None
+        out += [R(st) for st in post]
+        for st in out:
+            ast.copy_location(st, w)
+            for n in ast.walk(st):
+                if not hasattr(n, "lineno") or any(n is x for b in w.body for x in ast.walk(b)):
+                    continue
+                n.lineno = w.lineno      # type: ignore[attr-defined]
+            ast.fix_missing_locations(st)
+        return out
+
+    def visit_block(block: List[ast.stmt]) -> List[ast.stmt]:
+        out: List[ast.stmt] = []
+        for st in block:
+            for fld in ("body", "orelse", "finalbody"):
+                sub = getattr(st, fld, None)
+                if isinstance(sub, list) and sub and isinstance(sub[0], ast.stmt):
+                    setattr(st, fld, visit_block(sub))
+            if isinstance(st, ast.Try):
+                for h in st.handlers:
+                    h.body = visit_block(h.body)
+            if isinstance(st, ast.With) and len(st.items) == 1 and isinstance(st.items[0].context_expr, ast.Call):
+                f = st.items[0].context_expr.func
+                nm = f.id if isinstance(f, ast.Name) else (f.attr if isinstance(f, ast.Attribute) else None)
+                if nm in cms:
+                    new = expand(st, cms[nm][0])
+                    if new is not None:
+                        done[nm] = "expanded at its with statements"
+                        used_here.add(nm)
+                        out.extend(new)
+                        continue
+            out.append(st)
+        return out
+
+    home: Dict[int, ast.Module] = {}
+    for tree in trees:
+        for n in ast.walk(tree):
+            if isinstance(n, ast.FunctionDef):
+                home[id(n)] = tree
+    used_here: set = set()
+    for tree in trees:
+        used_here.clear()
+        for fn in [n for n in ast.walk(tree) if isinstance(n, (ast.FunctionDef, ast.AsyncFunctionDef))]:
+            if any(fn is c[0] for c in cms.values()):
+                continue
+            fn.body = visit_block(fn.body)
+        # a context manager defined in another module brings its module-level names along
+        for nm, fns in cms.items():
+            if nm not in used_here or home.get(id(fns[0])) is tree or not tree.body:
+                continue
+            src_tree = home.get(id(fns[0]))
+            src_mod = getattr(src_tree, "_modname", None)
+            if src_tree is None or src_mod is None:
+                continue
+            top_src = _module_level_names(src_tree)
+            top_here = _module_level_names(tree)
+            need = {x.id for x in ast.walk(fns[0]) if isinstance(x, ast.Name) and isinstance(x.ctx, ast.Load)} & top_src
+            missing = sorted(n_ for n_ in need if n_ not in top_here)
+            if missing:
+                imp = ast.ImportFrom(module=src_mod, names=[ast.alias(name=n_, asname=None) for n_ in missing], level=0)
+                ast.fix_missing_locations(ast.copy_location(imp, tree.body[0]))
+                tree.body.insert(0, imp)
+    return done
+
+
+def _module_level_names(tree: ast.Module) -> set:
+    out = set()
+    for st in tree.body:
+        if isinstance(st, (ast.FunctionDef, ast.ClassDef, ast.AsyncFunctionDef)):
+            out.add(st.name)
+        elif isinstance(st, ast.Assign):
+            for t in st.targets:
+                out |= {x.id for x in ast.walk(t) if isinstance(x, ast.Name)}
+        elif isinstance(st, ast.AnnAssign) and isinstance(st.target, ast.Name):
+            out.add(st.target.id)
+        elif isinstance(st, (ast.Import, ast.ImportFrom)):
+            for a in st.names:
+                out.add((a.asname or a.name).split(".")[0])
+        elif isinstance(st, (ast.If, ast.Try)):
+            for sub in ast.walk(st):
+                if isinstance(sub, (ast.Import, ast.ImportFrom)):
+                    for a in sub.names:
+                        out.add((a.asname or a.name).split(".")[0])
+    return out
+
+
+def _ctx_dotted(n: ast.AST) -> Optional[str]:
+    if isinstance(n, ast.Call):
+        n = n.func
+    parts = []
+    while isinstance(n, ast.Attribute):
+        parts.append(n.attr)
+        n = n.value
+    if isinstance(n, ast.Name):
+        parts.append(n.id)
+        return ".".join(reversed(parts))
+    return None
